@@ -38,7 +38,7 @@ MANIFEST = {
 P64U = 18446744073709551557      # 2^64 - 59
 P64S = 18446744073709551533      # 2^64 - 83
 CONFIGS = [(1, 0), (2, 0), (3, 1), (4, 1), (5, 2)]
-TYPES = [('int', 8), ('int', 16), ('int', 32), ('fxp', 16, 8), ('fxp', 32, 16),
+TYPES = [('int', 8), ('int', 16), ('int', 32), ('int', 64), ('fxp', 16, 8), ('fxp', 32, 16),
          ('fld', 11, False), ('fld', 13, True), ('fld', 251, False), ('fld', 241, True),
          ('fld', P64U, False), ('fld', P64S, True)]
 
@@ -178,8 +178,16 @@ def run(ctx):
     ]
     rng = ctx.rng
     thorough = ctx.tier == 'thorough'
-    configs = [(m, t, np_) for (m, t) in CONFIGS + ([(7, 3)] if thorough else []) for np_ in (False, True)]
-    sweep_cfgs = set(configs) if thorough else {(3, 1, False), (1, 0, True)}
+    configs = [(m, t, np_) for (m, t) in CONFIGS + ([(7, 3), (6, 2)] if thorough else []) for np_ in (False, True)]
+    many_subsets = [] if thorough else [(7, 3, False), (6, 2, False)]   # quick: PRSS with 35 / 15 subsets, int/fxp pairs only
+    configs += many_subsets
+    # the tape-range hypotheses (r <= 2^(k+l); r_div ranges of trunc/_mod) against the bounds as coded in
+    # _convert / _randoms, extracted from the source on this run
+    from props.c01 import check_mask_bounds, MUTATIONS
+    check_mask_bounds(ctx, ['convert', 'randoms'])
+    # full sweeps of the <= 8-bit types: thorough m <= 3 (all six configurations), quick two configurations
+    sweep_cfgs = {c for c in configs if c[0] <= 3} if thorough else {(3, 1, False), (1, 0, True)}
+    wide_sweep_cfgs = {(3, 1, False), (2, 0, True)} if thorough else set()   # 251/241-element fields to every target
     ctx.rule = ('case = (source type, target type, batch of values, sender, m, t, PRSS on/off); values: range extremes, '
                 '0, +-1, all values of <= 8-bit types (sweep), random; only values whose result fits the target are '
                 'required to be preserved; non-trivial when m >= 2')
@@ -194,46 +202,76 @@ def run(ctx):
     for (m, t, np_) in configs:
         t0 = time.time()
         sweep = (m, t, np_) in sweep_cfgs
-        full = thorough or (m, t, np_) == (3, 1, False)
+        full = (thorough and m <= 5) or (m, t, np_) == (3, 1, False)
         cno = configs.index((m, t, np_))
         jobs = []
         for i, S in enumerate(TYPES):
             for j, T in enumerate(TYPES):
-                if not full and (i * len(TYPES) + j + cno) % 3:
-                    continue                       # quick tier: every pair in the full config and in ~1/3 of the others
+                if (m, t, np_) in many_subsets:
+                    if S[0] == 'fld' or T[0] == 'fld' or S == T:
+                        continue                   # reduced budget: all ordered int/fxp pairs
+                elif not full and (i * len(TYPES) + j + cno) % (2 if thorough else 3):
+                    continue                       # every pair in the full configs and in 1/3 (thorough m>=6: 1/2) of the others
                 nar = narrow(S, T)
-                if nar and not thorough and cno % 3:
+                if nar and (cno % 3 if not thorough else m > 5):
                     continue
                 small_src = rng_of(S)[1] - rng_of(S)[0] < 300
-                do_sweep = sweep and not nar and small_src and (thorough or S[0] == 'int' or S[1] < 20 or T == ('int', 16))
+                if thorough:
+                    do_sweep = sweep and not nar and small_src and (S[0] == 'int' or S[1] < 20 or T == ('int', 16)
+                                                                    or (m, t, np_) in wide_sweep_cfgs)
+                else:
+                    do_sweep = sweep and not nar and small_src and (S[0] == 'int' or S[1] < 20 or T == ('int', 16))
                 vals = values(rng, S, do_sweep, ctx.n(3, 10))
                 keep = [v for v in vals if expected(S, T, v)[1]]
                 if not keep:
                     continue
-                cap = 2 if nar else (300 if do_sweep else (ctx.n(5, 16) if S[0] == 'fld' else ctx.n(12, 40)))
+                if thorough:
+                    cap = 2 if nar else (300 if do_sweep else ((4 if m > 5 else 8) if S[0] == 'fld' else (12 if m > 5 else 24)))
+                else:
+                    cap = 2 if nar else (300 if do_sweep else (5 if S[0] == 'fld' else 12))
                 if len(keep) > cap:
                     ext = [v for v in keep if v in (rng_of(S)[0], rng_of(S)[1], 0, -1, 1)]
                     keep = (ext + rng.sample(keep, cap))[:cap]
                 jobs.append((S, T, keep, rng.randrange(64)))
                 if rng.random() < 0.1:
                     jobs.append((S, T, [rng.choice(keep)], 3 * rng.randrange(20)))
-        sim = Sim(m=m, t=t, no_prss=np_, seed=ctx.seed * 137 + m * 11 + t + (500 if np_ else 0))
-        try:
-            st = sim.start()
-            if not sim.started:
+        def fresh_sim(extra=0):
+            sm = Sim(m=m, t=t, no_prss=np_, seed=ctx.seed * 137 + m * 11 + t + (500 if np_ else 0) + 7919 * extra)
+            st = sm.start()
+            if not sm.started:
+                sm.close()
                 ctx.violation('start-failed m=%d t=%d' % (m, t), {'m': m, 't': t, 'no_prss': np_, 'start': repr(st)})
-                continue
-            # run in slices so that one failure does not hide the rest
-            for i0 in range(0, len(jobs), 12):
-                chunk = jobs[i0:i0 + 12]
-                policy = Fifo() if rng.random() < 0.75 else RandomOrder(random.Random(rng.randrange(1 << 30)), lazy=0.1)
-                res = sim.run(make_prog(chunk), policy, idle_limit=200000)
-                broken_run = [r for r in res if not isinstance(r, list)]
-                if broken_run:
-                    ctx.violation('run-failed m=%d t=%d %s' % (m, t, 'noPRSS' if np_ else 'PRSS'),
+                return None
+            return sm
+        sim = fresh_sim()
+        queue = [(jobs[i0:i0 + 12], 0) for i0 in range(0, len(jobs), 12)]     # slices: one failure does not hide the rest
+        nfresh = 0
+        try:
+            while queue and sim is not None:
+                chunk, attempt = queue.pop(0)
+                policy = Fifo() if (attempt or rng.random() < 0.75) else RandomOrder(random.Random(rng.randrange(1 << 30)), lazy=0.1)
+                # idle_limit detects a deadlock; max_rounds must never cut a long but progressing run
+                res = sim.run(make_prog(chunk), policy, idle_limit=200000 * (1 + 2 * attempt), max_rounds=10 ** 12)
+                if any(not isinstance(r, list) for r in res):
+                    # unfinished / exception: runtimes are in an undefined state -> fresh simulator; the chunk is re-run
+                    # once, split into single jobs with at most 32 values each, before anything is reported
+                    sim.close()
+                    nfresh += 1
+                    sim = fresh_sim(extra=nfresh)
+                    if attempt == 0:
+                        small = []
+                        for (S, T, vals, slot) in chunk:
+                            for v0 in range(0, len(vals), 32):
+                                small.append(([(S, T, vals[v0:v0 + 32], slot)], 1))
+                        queue = small + queue
+                        ctx.notes.append('chunk re-run split in a fresh simulator (m=%d t=%d no_prss=%s): first attempt %s' % (
+                            m, t, np_, repr(res)[:160]))
+                        continue
+                    ctx.violation('run-failed m=%d t=%d %s %s' % (m, t, 'noPRSS' if np_ else 'PRSS',
+                                                                 '%s->%s' % (tname(chunk[0][0]), tname(chunk[0][1]))),
                                   {'m': m, 't': t, 'no_prss': np_, 'jobs': [(tname(S), tname(T), v, s) for S, T, v, s in chunk],
                                    'result': repr(res)[:1500]})
-                    break
+                    continue
                 for j, (S, T, vals, slot) in enumerate(chunk):
                     outs = [r[j] for r in res]
                     nvals += len(vals)
@@ -258,9 +296,11 @@ def run(ctx):
                                        'outputs_party0': outs[0][:50], 'outputs_other': outs[bad[1]][:50] if bad[1] else None})
                     elif (m, t, np_) in ((3, 1, False), (2, 0, True)) and cls == 'regular':
                         obs.append((S, T, vals, outs[0]))
-            sim.shutdown()
+            if sim is not None:
+                sim.shutdown()
         finally:
-            sim.close()
+            if sim is not None:
+                sim.close()
         per_config['m=%d t=%d %s' % (m, t, 'noPRSS' if np_ else 'PRSS')] = {'conversions': len(jobs), 'seconds': round(time.time() - t0, 1)}
         ctx.log('config m=%d t=%d no_prss=%s: %d conversions (%s) in %.1fs' % (m, t, np_, len(jobs), 'sweep' if sweep else 'extremes', time.time() - t0))
     ctx.extra['per_config'] = per_config
@@ -315,5 +355,45 @@ def run(ctx):
         ctx.log('model vs oracle/implementation disagreements: %d of %d' % (mism, len(exprs)))
     elif not have_model:
         ctx.notes.append('coq/theories/Convert.v absent: no model evaluation in this run')
+    # ---- list aliasing: the caller edits its list after convert(list, T) returned, before the result is awaited
+    for (m, t) in ((1, 0), (3, 1)):
+        pairs = [(('int', 8), ('int', 32)), (('int', 16), ('fxp', 32, 16)), (('fxp', 16, 8), ('int', 16)),
+                 (('fld', 13, True), ('int', 16)), (('fld', 11, False), ('fld', 251, False))]
+        base = {'int': [3, -5, 7, 100], 'fxp': [3 << 8, -(5 << 8), 7 << 8, 100 << 8], 'fld': [3, 5, 1, 4]}
+        for muts in (('reverse', 'overwrite'), ('del', 'append')):
+            async def aprog(mpc, mods, pid, muts=muts):
+                pend = []
+                for (S, T) in pairs:
+                    st, tt = mk(mpc, S), mk(mpc, T)
+                    for mn in muts:
+                        vals = base[S[0]]
+                        L = mpc.input([st(v / (1 << S[2]) if S[0] == 'fxp' else v) if pid == 0 else st(0) for v in vals], senders=0)
+                        y = mpc.convert(L, tt)
+                        MUTATIONS[mn](L)
+                        pend.append((tname(S), tname(T), mn, T, mpc.output(y)))
+                out = {}
+                for sn, tn, mn, T, o in pend:
+                    o = await o
+                    out['%s->%s/%s' % (sn, tn, mn)] = [int(round(float(v) * (1 << frac(T)))) if T[0] == 'fxp' else int(v) for v in o]
+                return out
+            sim = Sim(m=m, t=t, no_prss=rng.random() < 0.5, seed=ctx.seed * 19 + m)
+            try:
+                sim.start()
+                res = sim.run(aprog, idle_limit=100000, max_rounds=10 ** 12)
+                for (S, T) in pairs:
+                    for mn in muts:
+                        key = '%s->%s/%s' % (tname(S), tname(T), mn)
+                        want = [v << (frac(T) - frac(S)) if frac(T) >= frac(S) else v >> (frac(S) - frac(T)) for v in base[S[0]]]
+                        got = [r.get(key) if isinstance(r, dict) else r for r in res]
+                        ctx.case({'alias': key, 'm': m}, nontrivial=True, kind='alias m=%d' % m)
+                        if any(g != want for g in got):
+                            ctx.violation('alias convert %s mutation=%s m=%d' % (key.split('/')[0], mn, m),
+                                          {'pair': key, 'mutation': mn, 'm': m, 't': t, 'list_at_call': base[S[0]], 'want': want,
+                                           'got_per_party': repr(got)[:400]})
+                if all(isinstance(r, dict) for r in res):
+                    sim.shutdown()
+            finally:
+                sim.close()
+
     if ctx.broken and not ctx.violations:
         ctx.unproved('C06 model/proof', {'broken': ctx.broken[:5]})
